@@ -1577,6 +1577,10 @@ fn gen_c15(rng: &mut Rng, _r: u64) -> Value {
     let link = rng.chance(1, 3);
     if link {
         prelude.push(json!({"k":"env","act":"write_file","path":"$T/linked-target","val":2}));
+        if rng.chance(1, 3) {
+            // the caller's file is read-only and stays that way
+            prelude.push(json!({"k":"env","act":"chmod","path":"$T/linked-target","mode":0o444}));
+        }
         steps.push(json!({"k":"api","op":"link_to","entry":*rng.pick(&["fn","open"]),"key":nk - 1,"target":"$T/linked-target","mode":f.1}));
     }
     let n = rng.range(3, 10);
